@@ -1,7 +1,7 @@
 (** The reference LRU of C15 (spec; short on purpose; independent of the operational models).
 
     State: the residents, LEAST recently used first (the order Keys returns).
-    Parameters: [sized] (false = plain LRU: sizes are not tracked, every size counts 0 and negative
+    Configuration: [sized] (false = plain LRU: sizes are not tracked, every size counts 0 and negative
     sizes are not rejected), item capacity [cap], byte capacity [mb].
 
     - Put, an inserting HasOrAdd and Get make an entry the most recently used one (append at the end);
